@@ -113,6 +113,15 @@ Theorem c15_hold_release : forall s kind v s1 o1 s2 o2 s' o,
 Proof. exact hold_release. Qed.
 Print Assumptions c15_hold_release.
 
+(* hook_up_emitter: a listener hooked up from ordinary code with script `for(;;) co_await e;` receives, inside the hook-up
+   itself, every value the registration function emits through the collector it was handed — the coroutine is subscribed
+   before the registration function runs. *)
+Theorem c15_hook_up_receives : forall vd g r keep k s' o,
+  step (st0 false vd) (OHookUp g 0 false r keep k) = (s', o) ->
+  forall j, (1 <= j <= k)%nat -> In (g, if vd then 0 else 900 + Z.of_nat j) (delivs (o_ev o)).
+Proof. exact hook_up_receives. Qed.
+Print Assumptions c15_hook_up_receives.
+
 (* Subscribers on other threads against the collector's exchanges, every schedule, any number of subscribers and
    exchanges, every CAS attempt its own step: the rounds the collector took plus the chain contain exactly the
    subscribers whose CAS succeeded, each exactly once (never lost, never doubled); so a subscriber that published
@@ -183,10 +192,10 @@ Proof. vm_compute. repeat split; try reflexivity. intros it [H|[]]. subst it. re
    the driver's and receives what is emitted; with the collector dropped the state dies inside the first await and the
    listener is cancelled (at once from ordinary code, at the driver's next suspension in a coroutine) *)
 Example c15_hook_up :
-  flat_map o_ev (fst (run_from (st0 false false) [OHookUp 1 0 false 1 true; OEmit 0 false 5; ODrop]))
+  flat_map o_ev (fst (run_from (st0 false false) [OHookUp 1 0 false 1 true 0; OEmit 0 false 5; ODrop]))
     = [EAwait 1; ERecv 1 5; EAwait 1; ECancel 1 1; EAwait 1; ECancel 1 0; EFin 1] /\
-  flat_map o_ev (fst (run_from (st0 false false) [OHookUp 1 0 false 0 false])) = [EAwait 1; ECancel 1 0; EFin 1] /\
-  map o_ev (fst (run_from (st0 true false) [OHookUp 1 0 false 0 false; OPause])) = [[EAwait 1]; [ECancel 1 0; EFin 1]].
+  flat_map o_ev (fst (run_from (st0 false false) [OHookUp 1 0 false 0 false 0])) = [EAwait 1; ECancel 1 0; EFin 1] /\
+  map o_ev (fst (run_from (st0 true false) [OHookUp 1 0 false 0 false 0; OPause])) = [[EAwait 1]; [ECancel 1 0; EFin 1]].
 Proof. vm_compute. repeat split. Qed.
 
 (* non-vacuity of c15_reawait_misses_none: the initial state meets its hypotheses (both driver modes) *)
